@@ -56,11 +56,15 @@ ExtraPatterns(m) ==
        <<[pos |-> 0, side |-> "pred"], [pos |-> m, side |-> "pred"], [pos |-> m \div 2, side |-> "ann"]>>,
        <<>> >>
 \* the case drawn from plan entry e for the index multiset rs and the task
+\* sound_event_detection: how each event pair exists (Metrics!MatchKind); a quarter of the items stay matched pairs
+MatchKinds == <<"both", "pred", "ann", "both", "pred0", "ann", "ann0", "pred">>
 MkCore(e, rs, task) ==
     LET item(r) == IF e.kind # "ml" THEN SlItem(r, e.C) ELSE MlItem(r, e.C)
         sh == ShapesOf(e.n)
     IN  [task  |-> task, C |-> e.C, u |-> U,
-         items |-> [i \in 1..e.n |-> item(rs[i])],
+         items |-> [i \in 1..e.n |-> LET it == item(rs[i]) IN
+                       [t |-> it.t, y |-> it.y, s |-> it.s,
+                        m |-> IF task = "sed" THEN MatchKinds[1 + ((3 * rs[i] + 5 * i + SumSeq(rs)) % Len(MatchKinds))] ELSE "both"]],
          clips |-> IF task \in {"cc", "cml"} THEN OneEach(e.n)
                    ELSE FromSizes(sh[1 + ((SumSeq(rs) + TaskNo(task)) % Len(sh))]),
          style |-> (rs[1] + 3 * rs[e.n] + TaskNo(task)) % 2]
@@ -72,7 +76,7 @@ Catalogue(e) == IF e.kind # "ml" THEN SlValid(e.C) ELSE MlRaw(e.C)
 
 \* sound_event_detection computes mean average precision over the labelled items: with none it is undefined
 \* (not generated, see DESIGN section 4 C09)
-InScope(k) == IF k.task = "sed" THEN Labelled(k.items) ELSE TRUE
+InScope(k) == IF k.task = "sed" THEN Labelled(EffSeq(k.items)) ELSE TRUE
 
 MetricIds(task) == IF SingleLabel(task) THEN {"acc", "bacc", "top3", "map", "tcp"} ELSE {"map", "ap", "jac"}
 \* the units on which a value is attached: all items, the items of each clip, each single item
@@ -150,6 +154,14 @@ ImplMapRefinesReq == (Out /\ ~SingleLabel(c.task)) => ImplMapMLRefinesReq(c.item
 \* the clips evaluated (walk the predictions, keep the annotated ones) are exactly the clips in both inputs, in both orders
 LawEvaluatedClips == ImplIterateRefinesReq(c)
 LawExtrasWellFormed == \A i \in DOMAIN c.extras : c.extras[i].pos \in 0..Len(c.clips) /\ c.extras[i].side \in {"pred", "ann"}
+\* detection: an annotation nothing was predicted for is a miss of the accuracy family unless it is itself unlabelled,
+\* and a prediction without annotation is an item of the 'none' class that mean average precision leaves out
+LawUnmatched == (Out /\ c.task = "sed") =>
+    LET e == EffSeq(c.items) IN
+    /\ \A i \in DOMAIN c.items : AnnOnly(c.items[i]) =>
+          \A p \in Preds(e, c.C, c.u) : p[i] = c.C + 1
+    /\ \A i \in DOMAIN c.items : PredOnly(c.items[i]) => Truth(e[i], c.C) = c.C + 1
+    /\ MapSL(e, c.C, c.u) = MapSL(SelectSeq(e, LAMBDA it : it.t # 0), c.C, c.u)
 LawComputed == ph = "out" => DOMAIN res = MetricIds(c.task)
 
 \* smallest universe showing the two as-found defects on the model (spec/history/*.cfg)
